@@ -53,6 +53,9 @@ def schedule(draw, tier="quick"):
                 op["o"] = draw(st.integers(0, 5))
         elif k == "process":
             op["n"] = draw(st.integers(1, 3))
+        elif k == "foreign":
+            # the unknown strategy's bet may sit in a market this framework has never seen
+            op["other_market"] = draw(st.booleans())
         elif k == "restart":
             # the new instance may receive the image of its bets BEFORE the first market data of that market
             op["orders_first"] = draw(st.booleans())
@@ -95,10 +98,15 @@ class Driver:
     # ---- snapshots --------------------------------------------------------------------------
     def take_snap(self, full=False, only_executable=False):
         msg = self.exchange.message(self.spec["id"], full_image=full, only_executable=only_executable)
-        if msg is None:
+        other = None
+        if any(b.market_id == self.FOREIGN_MARKET for b in self.exchange.bets.values()):
+            other = self.exchange.message(self.FOREIGN_MARKET, full_image=full, only_executable=only_executable)
+        if msg is None and other is None:
             return
         lab = self.lab
-        lab.olistener.on_data(json.dumps(msg))
+        for m_ in (msg, other):
+            if m_ is not None:
+                lab.olistener.on_data(json.dumps(m_))
         while not lab.oq.empty():
             books = lab.oq.get()
             for b in books:
@@ -111,6 +119,9 @@ class Driver:
         books = self.snaps.pop(0)
         ev = self.lab._events.CurrentOrdersEvent(books)
         self.lab.fw._process_current_orders(ev)
+        if self.lab.fw.markets.markets.get(self.FOREIGN_MARKET) is not None:
+            raise Violation("unknown-strategy-bet-had-an-effect", ("market-created",),
+                            "a bet of an unknown strategy in market %s made the framework register that market" % self.FOREIGN_MARKET, self.c)
         if dup:
             self.lab.fw._process_current_orders(self.lab._events.CurrentOrdersEvent(books))
             self.classes.add("duplicate-snapshot")
@@ -194,15 +205,19 @@ class Driver:
             elif k == "restart":
                 self.restart(op.get("orders_first", False))
             elif k == "foreign":
-                self.foreign_bet()
+                self.foreign_bet(op.get("other_market", False))
         except FlumineException:
             pass  # state guards rejecting a request are fine
 
-    def foreign_bet(self):
+    FOREIGN_MARKET = "1.199999999"
+
+    def foreign_bet(self, other_market=False):
         """a bet of a strategy this framework does not know: must be ignored without effect"""
         instr = {"selectionId": self.spec["runners"][0]["id"], "handicap": 0, "side": "BACK", "orderType": "LIMIT",
                  "customerOrderRef": "ffffffffffff0-123456789012345678", "limitOrder": {"price": 2.0, "size": 2.0, "persistenceType": "LAPSE"}}
-        b = self.exchange.new_bet(self.spec["id"], instr)
+        b = self.exchange.new_bet(self.FOREIGN_MARKET if other_market else self.spec["id"], instr)
+        if other_market:
+            self.classes.add("unknown-strategy-bet-in-unknown-market")
         b.sref = self.exchange.sref
         b.ref = instr["customerOrderRef"]
         self.classes.add("unknown-strategy-bet")
